@@ -227,7 +227,7 @@ func c19Logs(r *R, f *core.FSM) {
 		val := ""
 		if ok {
 			val = r.d.Of(sts[0].Val)
-			arg := fn.Params[1].Name()
+			arg := core.ParamName(fn.Params[1])
 			ok = strings.HasPrefix(val, "dyn:append(chst."+fld+",[") && strings.Contains(val, "Type:"+arg+".Type") && strings.Contains(val, "Node:"+arg+".Voucher") && len(r.p.AtomsAtInstr(sts[0])) == 0
 		}
 		r.c.Check(ok, "C19.4", "append:"+ev, r.p.Pos(fn.Pos()), fld+" = append("+fld+", the new entry)", "the "+ev+" action does not append the new entry to "+fld+" (stores "+val+")")
